@@ -14,8 +14,9 @@ def run(ctx):
                 "real StorageClientImmutables/Mutables/General over StubTreq against HTTPServer, and directly on a twin StorageServer (BucketWriter.write + "
                 "close when complete, abort, get_buckets/read, slot_readv, slot_testv_and_readv_and_writev, add_lease, advise_corrupt_share); every event "
                 "carries both results and both servers' share files; TLC judges the HTTP answer, the direct answer, their agreement and both states against the "
-                "same operators; the two storage directories are compared byte by byte at the end of each history. A history is non-trivial if it contains a "
-                "completed upload (201), a range read with data (206) or a successful read-test-write.")
+                "same operators; the two storage directories are compared byte by byte at the end of each history. An operation (executed on both paths) is non-trivial "
+                "if it is an accepted/conflicting/overrunning write, a range read of an existing share (206/204), an answered read-test-write, or an "
+                "accepted allocation, abort, lease or advisory.")
     ctx.assumptions += ["TLC and the CommunityModules", "the RangeMap shim in /verif/shims (used by BucketWriter and the HTTP client's UploadProgress)",
                         "treq.testing.StubTreq and twisted.web as transport; the cooperator runs on zero-delay virtual timers so both servers act at the same instant",
                         "the driver's observation functions (ShareFile/MutableShareFile readers of the code under test read data and leases back)",
@@ -27,16 +28,18 @@ def run(ctx):
     hf.run_mc(ctx, "MC_authorised_interleavings", consts, INV, PROPS, timeout=3000)
     if not ctx.quick:
         hf.run_mc(ctx, "MC_authorised_size3", dict(consts, Size=3, MaxOps=3), INV, PROPS, timeout=3000)
-    n = 50 if ctx.quick else 500
+    n = 70 if ctx.quick else 500
     ev = 30 if ctx.quick else 45
     traces = ctx.impl("harness/http_driver.py", ["--mode", "twin", "--n", n, "--events", ev])
     nops = 0
     for i, tr in enumerate(traces):
         reqs = [e for e in tr["events"] if e["ev"] == "Req"]
         nops += len(reqs)
-        nontrivial = any((e["r"]["ep"] == "write" and e["status"] == 201) or (e["r"]["ep"] in ("iread", "mread") and e["status"] == 206)
-                         or (e["r"]["ep"] == "rtw" and e["status"] == 200 and e["body"].get("success")) for e in reqs)
-        ctx.count(json.dumps([[e["r"]["ep"], e["r"]["a"], e["status"]] for e in reqs], sort_keys=True) if nontrivial else None)
+        for e in reqs:
+            ep, st = e["r"]["ep"], e["status"]
+            nontrivial = "d" in e and ((ep == "write" and st in (200, 201, 409, 500)) or (ep in ("iread", "mread") and st in (204, 206))
+                                       or (ep == "rtw" and st == 200) or (ep in ("alloc", "abort", "lease", "icorrupt", "mcorrupt") and st in (200, 204)))
+            ctx.count(json.dumps([ep, e["r"]["si"], e["r"]["sh"], e["r"]["a"], st, e["body"]], sort_keys=True) if nontrivial else None)
         t = tr.pop("tree")
         if not t["equal"]:
             kind = "advisory" if all(p.startswith("corruption-advisories") for p in t["diff"]) else ("incoming" if all("incoming" in p for p in t["diff"]) else "share")
